@@ -11,6 +11,66 @@ mod universal;
 
 use std::io::{BufRead, Write};
 
+/// Counting allocator: the largest single request and the peak of live bytes since the last reset.
+/// Used by the `measure` wrapper (C05: no memory requested for a length declared in the data
+/// beyond the configured maximum).
+pub mod alloc_count {
+    use std::alloc::{GlobalAlloc, Layout, System};
+    use std::sync::atomic::{AtomicUsize, Ordering::Relaxed};
+    pub static LIVE: AtomicUsize = AtomicUsize::new(0);
+    pub static PEAK: AtomicUsize = AtomicUsize::new(0);
+    pub static LARGEST: AtomicUsize = AtomicUsize::new(0);
+    pub struct Counting;
+    unsafe impl GlobalAlloc for Counting {
+        unsafe fn alloc(&self, l: Layout) -> *mut u8 {
+            let p = unsafe { System.alloc(l) };
+            if !p.is_null() {
+                let live = LIVE.fetch_add(l.size(), Relaxed) + l.size();
+                PEAK.fetch_max(live, Relaxed);
+                LARGEST.fetch_max(l.size(), Relaxed);
+            }
+            p
+        }
+        unsafe fn dealloc(&self, p: *mut u8, l: Layout) {
+            LIVE.fetch_sub(l.size(), Relaxed);
+            unsafe { System.dealloc(p, l) }
+        }
+        unsafe fn alloc_zeroed(&self, l: Layout) -> *mut u8 {
+            let p = unsafe { System.alloc_zeroed(l) };
+            if !p.is_null() {
+                let live = LIVE.fetch_add(l.size(), Relaxed) + l.size();
+                PEAK.fetch_max(live, Relaxed);
+                LARGEST.fetch_max(l.size(), Relaxed);
+            }
+            p
+        }
+        unsafe fn realloc(&self, p: *mut u8, l: Layout, new_size: usize) -> *mut u8 {
+            let q = unsafe { System.realloc(p, l, new_size) };
+            if !q.is_null() {
+                if new_size >= l.size() {
+                    let live = LIVE.fetch_add(new_size - l.size(), Relaxed) + (new_size - l.size());
+                    PEAK.fetch_max(live, Relaxed);
+                } else {
+                    LIVE.fetch_sub(l.size() - new_size, Relaxed);
+                }
+                LARGEST.fetch_max(new_size, Relaxed);
+            }
+            q
+        }
+    }
+    pub fn reset() {
+        PEAK.store(LIVE.load(Relaxed), Relaxed);
+        LARGEST.store(0, Relaxed);
+    }
+    /// (growth of the peak over the live bytes at reset, largest single request)
+    pub fn read(base: usize) -> (usize, usize) {
+        (PEAK.load(Relaxed).saturating_sub(base), LARGEST.load(Relaxed))
+    }
+}
+
+#[global_allocator]
+static GLOBAL: alloc_count::Counting = alloc_count::Counting;
+
 fn main() {
     // a panic inside the library is an observation, not a crash of the harness
     std::panic::set_hook(Box::new(|_| {}));
